@@ -72,16 +72,28 @@ def impl(case, verbose=0):
     m = np.array(case["mc"])
     s = np.array(case["sd"])
     r = tuple(case["range"])
+    f0, m0, s0 = f.copy(), m.copy(), s.copy()
     out = {}
+    # the SAME arrays are handed to every call (as a caller holding one mean curve does): "cla2" repeats the clarity call, which must
+    # see the curve it was given, not one rescaled or trimmed in place by an earlier call
     for name, fn in (("rel", lambda: ses.reliability(case["lw"], case["nw"], f, m, s, search_range_in_hz=r, verbose=verbose)),
-                     ("cla", lambda: ses.clarity(f, m, s, case["fn_std"], search_range_in_hz=r, verbose=verbose))):
+                     ("cla", lambda: ses.clarity(f, m, s, case["fn_std"], search_range_in_hz=r, verbose=verbose)),
+                     ("cla2", lambda: ses.clarity(f, m, s, case["fn_std"], search_range_in_hz=r, verbose=verbose)),
+                     ("rel2", lambda: ses.reliability(case["lw"], case["nw"], f, m, s, search_range_in_hz=r, verbose=verbose))):
         try:
             with quiet():
                 v = fn()
             out[name] = [bool(x > 0) for x in v]
         except (ValueError, IndexError, TypeError) as e:
             out[name] = "err"
+    history = dict(repeat_differs=(out.pop("cla2") != out["cla"] or out.pop("rel2") != out["rel"]),
+                   inputs_modified=not (np.array_equal(f, f0) and np.array_equal(m, m0) and np.array_equal(s, s0)))
+    out.pop("cla2", None); out.pop("rel2", None)
+    HISTORY[id(case)] = history
     return out
+
+
+HISTORY = {}
 
 
 def model_lines(case):
@@ -198,6 +210,9 @@ def run(ctx):
         ctx.count("range:" + "".join("N" if x is None else "v" for x in c["range"]))
         ctx.count("verdict:" + "".join("E" if im[k] == "err" else "".join("1" if b else "0" for b in im[k]) for k in ("rel", "cla")))
         ctx.traces += 1
+        hist = HISTORY.get(id(c), {})
+        if hist.get("repeat_differs") or hist.get("inputs_modified"):
+            ctx.violation("verdict-depends-only-on-the-curve-given", dict(case=c, first=im, **hist), seam="sesame.reliability/clarity called twice on the same arrays")
         bad = compare(ctx, c, im, mo)
         if bad:
             ctx.violation("verdict-equals-guideline",
